@@ -599,7 +599,7 @@ static void allSingleFaults(size_t n, std::vector<FaultOp>& out)
 
 static void enumerate(int tier, const std::function<bool(const Case&)>& emit)
 {
-    uint32_t nBases = tier ? 40 : 24;
+    uint32_t nBases = tier ? 120 : 40;
     for (uint32_t s = 1; s <= nBases; ++s)
     {
         Case base = fixedBase(s);
@@ -615,7 +615,7 @@ static void enumerate(int tier, const std::function<bool(const Case&)>& emit)
             if (!emit(c))
                 return;
         }
-        if (tier && s <= 6)
+        if (tier && s <= 14)
         {
             // all pairs of faults (second fault positions refer to the stream after the first fault)
             std::vector<FaultOp> seconds;
@@ -641,7 +641,7 @@ int main(int argc, char** argv)
     prop.enumerate = enumerate;
     prop.enumerationIsExhaustive = true;
     prop.enumerationNote = "every single fault (drop / duplicate-to-every-position / swap / move-to-every-position / corrupt version / corrupt "
-                           "message type) at every frame position of 24 (thorough 40) deterministic base streams of <= 12 frames; thorough: also "
-                           "every pair of faults on 6 base streams";
+                           "message type) at every frame position of 40 (thorough 120) deterministic base streams of <= 12 frames; thorough: also "
+                           "every pair of faults on the first 14 base streams";
     return pbtMain(argc, argv, prop);
 }
